@@ -23,7 +23,7 @@ from vlib import extract, lexers
 from checks.pcommon import prog, account, finish_case
 
 LANGS = ["typescript", "kotlin", "swift", "scala", "go", "python"]
-CLS = {"n": 10, "s": ord("*"), "f": ord("/"), "q": ord('"'), "a": ord("'"), "b": ord("\\"), "h": ord("#"), "t": ord("`"), "w": 32, "x": None}
+CLS = {"n": 10, "r": 13, "s": ord("*"), "f": ord("/"), "q": ord('"'), "a": ord("'"), "b": ord("\\"), "h": ord("#"), "t": ord("`"), "w": 32, "x": None}
 POSITIONS = ["type", "field", "unit_variant", "variant", "struct_variant_field", "alias", "enum_type", "alg_enum_type"]
 
 
@@ -108,15 +108,15 @@ def concrete_doc(word):
 
 
 def rust_lit(s):
-    return s.replace("\\", "\\\\").replace('"', '\\"').replace("\n", "\\n")
+    return s.replace("\\", "\\\\").replace('"', '\\"').replace("\n", "\\n").replace("\r", "\\r")
 
 
 def trimmed(word):
     """class word of the doc after the parser's trim()"""
     w = word
-    while w and w[0] in "nw":
+    while w and w[0] in "nrw":
         w = w[1:]
-    while w and w[-1] in "nw":
+    while w and w[-1] in "nrw":
         w = w[:-1]
     return w
 
@@ -129,7 +129,7 @@ def run(rep, tier, only=None):
     rep.validated += backend_selftest(P, nat, limit=None if tier == "thorough" else 10, configs=False)
     sd = seed()
     ws = words(2 if tier == "quick" else 3)
-    extra = ["qqq", "xqq", "qqx", "sfx", "xsf", "fsx", "xbq", "bbq", "xxb", "bqqq", "bbqqq", "xbqqq", "bqqqx", "bbbqqq", "bsf", "bn", "xbnx"]
+    extra = ["r", "xr", "rx", "xrx", "rn", "nr", "xrnx", "qqqq", "qqqqq", "bqqqq", "xqqqqx", "qqq", "xqq", "qqx", "sfx", "xsf", "fsx", "xbq", "bbq", "xxb", "bqqq", "bbqqq", "xbqqq", "bqqqx", "bbbqqq", "bsf", "bn", "xbnx"]
     if tier == "quick":
         alpha = "nsfqabhtwx"
         ws += [a + "n" + b for a in alpha for b in alpha] + extra
@@ -148,7 +148,7 @@ def run(rep, tier, only=None):
             # several doc lines with empty / blank lines between paragraphs
             for multi in (("x", "", "x"), ("x", "", "x", "x"), ("", "x"), ("x", ""), ("x", "w", "x"), ("x", "x", "x"), ("x", "", "", "x")):
                 cases.append((lang, pos, multi))
-    rep.bounds = {"doc strings": "class words up to length %d over {newline * / \" ' \\ # ` space other}; `other` is a symbolic letter/digit; 1-2 doc attributes, plus 2-4 doc lines with empty or blank lines between them" % (2 if tier == "quick" else 3),
+    rep.bounds = {"doc strings": "class words up to length %d over {newline, carriage return, * / \" ' \\ # ` space other}; `other` is a symbolic letter/digit; 1-2 doc attributes, plus 2-4 doc lines with empty or blank lines between them" % (2 if tier == "quick" else 3),
                   "positions": POSITIONS, "languages": LANGS}
     rep.outside = ["doc strings longer than the bound", "`///` vs `/** */` spelling (both reach typeshare as #[doc = ..] values; handled by syn)"]
     rep.assumptions = ["comment lexers of vlib/lexers.py (line/block comments, nested for Kotlin/Swift/Scala, string literals, Python docstrings as statement-level strings)"]
